@@ -129,22 +129,20 @@ example :
 /-! ### the LinkManager / DataCollection state machine -/
 
 /-- History invariant.  After any history of operations (add/remove link(s), add/remove component,
-append/remove dataset, delay blocks) in which no *list* operation raised half-way, whenever no
+append/remove dataset, delay blocks — including operations that raise), whenever no
 delay block is open every dataset of the collection holds exactly `discover_links` of the current
 links (for the scan order of its last update). -/
-theorem manager_inv (ops : List (Op × List Nat)) (hc : runClean MState.init ops = true)
-    (h0 : (run MState.init ops).delay = 0) :
+theorem manager_inv (ops : List (Op × List Nat)) (h0 : (run MState.init ops).delay = 0) :
     ∀ D ∈ (run MState.init ops).dsets, ∃ ord,
       D.cache = discoverLinks D.comps (scanList ord (effLinks (run MState.init ops).ext)) :=
   fun D hD =>
-    let ⟨ord, h, _⟩ := Lemmas.C03.good_run _ ops Lemmas.C03.good_init hc h0 D hD
+    let ⟨ord, h, _⟩ := Lemmas.C03.good_run _ ops Lemmas.C03.good_init h0 D hD
     ⟨ord, h⟩
 
 /-- What the datasets read after such a history, outside a delay block: the externally derivable
 cids are exactly the reachable foreign ones, a cid is readable exactly when reachable, every read
 satisfies the oracle predicate and is the composition along a least-depth derivation. -/
-theorem manager_reads (ops : List (Op × List Nat)) (hc : runClean MState.init ops = true)
-    (h0 : (run MState.init ops).delay = 0) :
+theorem manager_reads (ops : List (Op × List Nat)) (h0 : (run MState.init ops).delay = 0) :
     let s := run MState.init ops
     ∀ D ∈ s.dsets, ∀ c,
       (isDerivable D c = true ↔ (Reachable D.comps (curLinks s) c ∧ c ∉ D.comps)) ∧
@@ -152,15 +150,14 @@ theorem manager_reads (ops : List (Op × List Nat)) (hc : runClean MState.init o
       specOkAt D.comps (curLinks s) (ownVal s.vals) applyFn (readCid s D) c = true ∧
       (∀ v, readCid s D c = some v → MinVal D.comps (curLinks s) (ownVal s.vals) applyFn c v) := by
   intro s D hD c
-  have hS := Lemmas.C03.good_run _ ops Lemmas.C03.good_init hc h0
+  have hS := Lemmas.C03.good_run _ ops Lemmas.C03.good_init h0
   exact ⟨Lemmas.C03.synced_derivable hS hD c, Lemmas.C03.synced_readable hS hD c,
     Lemmas.C03.synced_specOk hS hD c, fun v hv => Lemmas.C03.synced_minVal hS hD c v hv⟩
 
 /-- Selections: `data.get_mask(cid > thr)` after such a history is `IncompatibleAttribute` exactly
 when `cid` is not reachable from the dataset, and otherwise selects exactly the elements whose
 derived value (a least-depth composition) exceeds `thr`. -/
-theorem selection_via_links (ops : List (Op × List Nat)) (hc : runClean MState.init ops = true)
-    (h0 : (run MState.init ops).delay = 0) (thr : Int) :
+theorem selection_via_links (ops : List (Op × List Nat)) (h0 : (run MState.init ops).delay = 0) (thr : Int) :
     let s := run MState.init ops
     ∀ D ∈ s.dsets, ∀ c,
       (selectGt thr (readCid s D c) = none ↔ ¬ Reachable D.comps (curLinks s) c) ∧
@@ -168,7 +165,7 @@ theorem selection_via_links (ops : List (Op × List Nat)) (hc : runClean MState.
         ∃ v, MinVal D.comps (curLinks s) (ownVal s.vals) applyFn c v ∧
           m = v.map (fun x => decide (x > thr))) := by
   intro s D hD c
-  have hS := Lemmas.C03.good_run _ ops Lemmas.C03.good_init hc h0
+  have hS := Lemmas.C03.good_run _ ops Lemmas.C03.good_init h0
   have hr := Lemmas.C03.synced_readable hS hD c
   constructor
   · rw [← hr]
@@ -208,7 +205,7 @@ def exHist : List (Op × List Nat) :=
    (.append 0, []), (.append 1, []), (.delayBegin, []), (.addLink (.single exA), [1, 2]),
    (.delayEnd, [1, 2]), (.removeComp 0 (0, 1), [])]
 
-example : runClean MState.init exHist = true ∧ runWf MState.init exHist = true ∧
+example : runWf MState.init exHist = true ∧
     (run MState.init (exHist.take 7)).delay = 0 ∧
     (run MState.init (exHist.take 7)).ext.length = 1 ∧
     (run MState.init exHist).ext.length = 0 := by decide
@@ -222,19 +219,21 @@ example :
     (s7.dsets.map fun D => readCid s7 D (0, 1)) = [some [1, 2], some [4, 5]] ∧
     (s7.dsets.map fun D => readCid s7 D (1, 1)) = [some [3, 5], some [5, 6]] := by decide
 
-/-- The construct excluded by `runClean`: a *list* `add_link([l, c])` whose second item raises
-(the same `LinkCollection` object is already stored: `AttributeError`) leaves `l` registered
-without an update, so outside any delay block dataset 1 cannot read through `l`. -/
-theorem list_op_raising_midway_witness :
+/-- Regression witness for glue fix F1 (`add_link([...])` / `remove_link([...])` now update in a
+`finally`): a *list* `add_link([l, c])` whose second item raises (the same `LinkCollection` object is
+already stored: `AttributeError`) leaves `l` registered **and usable**.  Before the fix the update
+was skipped and dataset 1 could not read through `l` outside any delay block. -/
+theorem list_op_raising_midway_synced :
     let c : Entry := .coll 9 [⟨3, ⟨[(0, 1)], (1, 1), ⟨[1], 0⟩⟩, some (4, ⟨[1], 0⟩)⟩]
     let l : Entry := .single ⟨5, ⟨[(1, 1)], (99, 1), ⟨[3], 0⟩⟩, none⟩
     let h : List (Op × List Nat) :=
       [(.newData 0 [((0, 1), [1, 2])], []), (.newData 1 [((1, 1), [5, 6])], []),
        (.append 0, []), (.append 1, []), (.addLink c, [3, 4]), (.addLinks [l, c], [3, 4, 5])]
     let s := run MState.init h
-    runClean MState.init h = false ∧ s.delay = 0 ∧ s.ext.length = 2 ∧
-    (s.dsets.map fun D => isDerivable D (99, 1)) = [false, false] ∧
-    (s.dsets.map fun D => (specDepth D.comps (curLinks s) (99, 1)).isSome) = [true, true] := by
+    (step [3, 4, 5] (run MState.init (h.take 5)) (.addLinks [l, c])).2 = .attributeError ∧
+    s.delay = 0 ∧ s.ext.length = 2 ∧
+    (s.dsets.map fun D => isDerivable D (99, 1)) = [true, true] ∧
+    (s.dsets.map fun D => readCid s D (99, 1)) = [some [3, 6], some [15, 18]] := by
   decide
 
 end GlueVerif.C03
